@@ -25,7 +25,7 @@
     mismatch <what> <params…> => e|o   a receiver with other parameters reading this stream
     version <v> => e|o             version field patched
     patched <hex> => e|o           any other byte string the model also judges
-    segment <i> <hdr> <delivered> <l0> <l1> <l2> <l3> => vec=<ids> txt=<ids> md=<ids> all=<v>/<t>/<m>
+    segment <i> <hdr> <delivered> <l0> <l1> <l2> <l3> => vec=<ids> txt=<ids> md=<ids> all=<v>/<t>/<m> cached=<0|1> | hang
 -/
 import Comet.Driver.Proto
 import Comet.Codec.Any
@@ -300,6 +300,7 @@ def opCodec (st : St) (toks : List String) : St × String :=
         (st, s!"SPECFAIL junk unread={unread} want={jl}")
       else (st, "ok")
     | some _, ["err"] => (st, "SPECFAIL junk real ReadFrom rejected its own stream")
+    | some _, ["hang"] => (st, "SPECFAIL ReadFrom did not return on a valid stream (hang)")
     | _, _ => (st, "BADOP junk")
   | ["removed", ids] =>
     match parseIds ids, st.decoded with
@@ -381,6 +382,7 @@ def expectRejected (what : String) (modelAccepts : Bool) (post : List String) : 
   | ["o"] =>
     if modelAccepts then s!"SPECFAIL {what} accepted by implementation and model"
     else s!"SPECFAIL {what} accepted by the implementation (model rejects)"
+  | ["h"] => s!"SPECFAIL {what}: ReadFrom did not return (hang)"
   | _ => s!"BADOP {what} outcome"
 
 def opTrunc (st : St) (toks : List String) : St × String :=
@@ -410,6 +412,8 @@ def opTrunc (st : St) (toks : List String) : St × String :=
         let impl := os.getD i '?'
         if n < st.stream.length then
           if impl == 'o' then some s!"SPECFAIL prefix-accepted n={n} of {st.stream.length}"
+          else if impl == 'h' then
+            some s!"SPECFAIL prefix-hang: ReadFrom did not return on a truncated stream (first {n} of {st.stream.length} bytes)"
           else if impl != 'e' then some s!"BADOP prefix outcome {impl}"
           else if sampled n && st.recv.accepts bm (st.stream.take n) then
             some s!"DIFF prefix n={n} model=accepts impl=error"
@@ -439,6 +443,7 @@ def opTrunc (st : St) (toks : List String) : St × String :=
       | ["e"] => if acc then (st, s!"DIFF mismatch {what} model=accepts impl=error") else (st, "ok rejected=1")
       | ["o"] =>
         (st, s!"SPECFAIL mismatch {what} accepted by the implementation (model accepts={acc})")
+      | ["h"] => (st, s!"SPECFAIL mismatch {what}: ReadFrom did not return (hang)")
       | _ => (st, "BADOP mismatch outcome")
   | ["version", _v, hex] =>
     match parseHexBytes hex with
@@ -451,6 +456,7 @@ def opTrunc (st : St) (toks : List String) : St × String :=
       (match post with
        | ["e"] => if acc then (st, "DIFF patched model=accepts impl=error") else (st, "ok rejected=1")
        | ["o"] => if acc then (st, "ok accepted=1") else (st, "DIFF patched model=rejects impl=accepts")
+       | ["h"] => (st, "SPECFAIL patched: ReadFrom did not return (hang)")
        | _ => (st, "BADOP patched outcome"))
     | none => (st, "BADOP patched")
   | ["segment", i, hdr, delivered, l0, l1, l2, l3] =>
@@ -466,14 +472,25 @@ def opTrunc (st : St) (toks : List String) : St × String :=
       let prog := Codec.Hybrid.loadProgress bm p inp
       let acc := st.recv.accepts bm inp
       -- impl: ids answered by a vector-only, text-only, metadata-only probe after a warm-up
-      -- search, and the ids an intact segment answers to the same probes
+      -- search, the ids an intact segment answers to the same probes, and whether the store
+      -- accepted (loaded and cached) the damaged segment
+      if post.head? == some "hang" then
+        (st, s!"SPECFAIL segment-hang: searching the store with a damaged segment did not return (i={i} d={d})") else
       match kvGet post "vec", kvGet post "txt", kvGet post "md", kvGet post "all" with
       | some v, some t, some m, some all =>
         let allParts := all.splitOn "/"
         let fullV := allParts.getD 0 "-"
         let fullT := allParts.getD 1 "-"
         let fullM := allParts.getD 2 "-"
-        -- faithful prediction with index instances shared between memtable and loads
+        -- every `segment` line is about a DAMAGED component (cut short, emptied or deleted):
+        -- the segment must not be accepted, whatever the reader still delivered (since fix
+        -- ae56580 getIndex reads the component files to their end, so a cut inside the gzip
+        -- trailer is an error like any other)
+        if kvGet post "cached" == some "1" then
+          (st, s!"SPECFAIL segment with a damaged component file was loaded and contributes (i={i} d={d} model-accepts-delivered-bytes={acc})") else
+        -- faithful prediction with index instances shared between memtable and loads (D13):
+        -- the sub-indexes ReadFrom had loaded in place before the error answer through the
+        -- memtable; when all bytes were delivered (damage in the gzip tail only) that is all
         let pv := if (acc || prog ≥ 1) && p.vec.isSome then fullV else "-"
         let pt := if (acc || prog ≥ 2) && p.txt then fullT else "-"
         let pm := if acc && p.md then fullM else "-"
@@ -481,9 +498,8 @@ def opTrunc (st : St) (toks : List String) : St × String :=
           if pv == "-" && pt == "-" && pm == "-" then (st, "ok nothing=1")
           else (st, s!"DIFF segment model-predicts vec={pv} txt={pt} md={pm} impl=nothing i={i} d={d}")
         else if v == pv && t == pt && m == pm then
-          if acc then (st, s!"KNOWN D24-gzip-tail-unverified i={i} d={d}")
-          else (st, s!"KNOWN D13-shared-templates i={i} d={d} progress={prog}")
-        else (st, s!"SPECFAIL segment contributes vec={v} txt={t} md={m} model-predicts vec={pv} txt={pt} md={pm} (i={i} d={d} progress={prog} loads={acc})")
+          (st, s!"KNOWN D13-shared-templates i={i} d={d} progress={if acc then 3 else prog}")
+        else (st, s!"SPECFAIL segment contributes vec={v} txt={t} md={m} model-predicts vec={pv} txt={pt} md={pm} (i={i} d={d} progress={prog} delivered-all={acc})")
       | _, _, _, _ => (st, "BADOP segment outcome")
     | _, _, _, _ => (st, "BADOP segment")
   | _ => (st, "BADOP unknown")
